@@ -74,7 +74,7 @@ def main():
             print(c, a.tier, "exit", rc, (first[0][:160] if first else ""))
             meta["ran"].append("./check %s %s -> exit %d" % (c, a.tier, rc))
     finally:
-        sh("git -C /repo checkout -- .")
+        sh("git -C /repo checkout -- . && git -C /repo clean -fdq src tests")
         # replays found against a seeded change must not stay in the replay tier
         sh("rm -rf %s/replays/found" % VERIF)
     rc, out = sh("git -C /repo status --porcelain")
